@@ -21,12 +21,14 @@ use plonky2_field::goldilocks_field::GoldilocksField as G;
 use plonky2_field::types::{Field, Field64, PrimeField, PrimeField64, Sample};
 use serde::{Deserialize, Serialize};
 
+pub mod algebra;
 pub mod ctx;
 pub mod poly;
 pub mod fri;
 pub mod gates;
 pub mod plonk;
 pub mod plonkv;
+pub mod transcript;
 pub mod smt;
 
 pub const P: u64 = 0xFFFF_FFFF_0000_0001;
@@ -529,6 +531,35 @@ impl Extendable<2> for SymF {
         SymF::c(<G as Extendable<2>>::EXT_POWER_OF_TWO_GENERATOR[1].0),
     ];
 }
+use plonky2_field::extension::quartic as _q4;
+use plonky2_field::extension::quintic as _q5;
+impl Extendable<4> for SymF {
+    type Extension = _q4::QuarticExtension<Self>;
+    const W: Self = SymF::c(<G as Extendable<4>>::W.0);
+    const DTH_ROOT: Self = SymF::c(<G as Extendable<4>>::DTH_ROOT.0);
+    const EXT_MULTIPLICATIVE_GROUP_GENERATOR: [Self; 4] = {
+        let g = <G as Extendable<4>>::EXT_MULTIPLICATIVE_GROUP_GENERATOR;
+        [SymF::c(g[0].0), SymF::c(g[1].0), SymF::c(g[2].0), SymF::c(g[3].0)]
+    };
+    const EXT_POWER_OF_TWO_GENERATOR: [Self; 4] = {
+        let g = <G as Extendable<4>>::EXT_POWER_OF_TWO_GENERATOR;
+        [SymF::c(g[0].0), SymF::c(g[1].0), SymF::c(g[2].0), SymF::c(g[3].0)]
+    };
+}
+impl Extendable<5> for SymF {
+    type Extension = _q5::QuinticExtension<Self>;
+    const W: Self = SymF::c(<G as Extendable<5>>::W.0);
+    const DTH_ROOT: Self = SymF::c(<G as Extendable<5>>::DTH_ROOT.0);
+    const EXT_MULTIPLICATIVE_GROUP_GENERATOR: [Self; 5] = {
+        let g = <G as Extendable<5>>::EXT_MULTIPLICATIVE_GROUP_GENERATOR;
+        [SymF::c(g[0].0), SymF::c(g[1].0), SymF::c(g[2].0), SymF::c(g[3].0), SymF::c(g[4].0)]
+    };
+    const EXT_POWER_OF_TWO_GENERATOR: [Self; 5] = {
+        let g = <G as Extendable<5>>::EXT_POWER_OF_TWO_GENERATOR;
+        [SymF::c(g[0].0), SymF::c(g[1].0), SymF::c(g[2].0), SymF::c(g[3].0), SymF::c(g[4].0)]
+    };
+}
+
 impl Poseidon for SymF {
     const MDS_MATRIX_CIRC: [u64; 12] = <G as Poseidon>::MDS_MATRIX_CIRC;
     const MDS_MATRIX_DIAG: [u64; 12] = <G as Poseidon>::MDS_MATRIX_DIAG;
